@@ -171,6 +171,32 @@ def run(ctx) -> None:
                 okh = True
         rep.add("C09.R1", f"{ci.name}:definition-hash-of-func", okh, ci.loc(), "definition_hash = hash_definition(func)" if okh else "definition_hash is not computed from the node's function")
 
+    # what hash_definition hashes: on every path that identifies the function by its code (source text or
+    # bytecode) the captured values are mixed in as well, and sequences of values are hashed as one delimited
+    # rendering (repr of a tuple), never by feeding the elements' reprs one after another
+    hd = db.func("_utils.hash_definition")
+    hcfg = ctx.cfg(hd)
+    clo_fs = {g for g in db.closure([hd], property_reads=False) if any(isinstance(x, ast.Constant) and x.value == "__closure__" for x in ast.walk(g.node)) or any(isinstance(x, ast.Attribute) and x.attr == "__closure__" for x in ast.walk(g.node))}
+    clo_nodes = [n for n in hcfg.nodes if any(cal.func in clo_fs for c in hcfg.calls_at(n) for cal in db.resolve_call(c, hd)) or any(isinstance(x, ast.Constant) and x.value == "__closure__" or isinstance(x, ast.Attribute) and x.attr == "__closure__" for e in hcfg.header_exprs(n) for x in ast.walk(e))]
+    code_rets = []
+    for r in hcfg.nodes:
+        if r.kind == "stmt" and isinstance(r.ast, ast.Return) and r.ast.value is not None and "hexdigest" in src(r.ast.value):
+            names = {x.id for x in ast.walk(r.ast.value) if isinstance(x, ast.Name)}
+            for _ in range(2):
+                names |= {y.id for nm in list(names) for d in db.local_defs(hd).get(nm, []) for y in ast.walk(d) if isinstance(y, ast.Name)}
+            by_name = any(any(isinstance(y, ast.Constant) and y.value in ("__qualname__", "__module__", "__name__") for d in db.local_defs(hd).get(nm, []) for y in ast.walk(d)) for nm in names)
+            if not by_name:
+                code_rets.append(r)
+    okc = bool(code_rets) and bool(clo_nodes) and all(all_paths_pass(hcfg.entry, r, clo_nodes, lambda a, b, l, i: l != "exc") for r in code_rets)
+    rep.add("C09.R1", f"{hd.qname}:captured-values-hashed", okc, hd.loc(), f"all {len(code_rets)} code-identifying hash results include the function's captured values" if okc else "a path returns a hash of the source text / bytecode alone: functions produced by one factory (same source, different captured values) get the same definition hash and, with equal inputs, each other's cache entries")
+    loose = []
+    for g in [hd] + sorted(clo_fs, key=lambda f_: f_.qname):
+        for lp in [n for n in walk_local(g.node) if isinstance(n, ast.For)]:
+            for c in ast.walk(lp):
+                if isinstance(c, ast.Call) and isinstance(c.func, ast.Attribute) and c.func.attr == "update" and isinstance(c.func.value, ast.Name) and any(isinstance(x, ast.Call) and dotted(x.func) == "repr" for x in ast.walk(c)):
+                    loose.append(c)
+    rep.add("C09.R1", f"{hd.qname}:delimited-sequences", not loose, f"{hd.module.rel}:{loose[0].lineno if loose else hd.lineno}", "no sequence of values is hashed by concatenating element reprs" if not loose else f"'{src(loose[0])[:60]}' feeds element reprs into the hash one after another without a delimiter: (2, 50) and (25, 0) give the same digest")
+
     # ---- R2 / R3 / R5 -----------------------------------------------------------
     dc = db.cls("cache.DiskCache")
     get = dc.methods["get"]
